@@ -90,3 +90,28 @@ pub fn ctx_src(vars: &[(&str, &RV)]) -> String {
 pub fn test_wrap(name: &str, body: &str) -> String {
     format!("#[test]\nfn {}() {{\n    use evalexpr::*;\n{}}}\n", name, body)
 }
+
+/// Several oracles compare results through the `Debug` rendering the crate derives for its own types. That
+/// is sound only while the rendering tells values apart: for every pair of pool values it must differ
+/// exactly when the values differ (checked by the harness's own bit-exact comparison), alone and as the
+/// payload of an error. Used as a guard: a lossy rendering makes those comparisons unusable, which is a
+/// machinery condition, not a verdict.
+pub fn debug_renderings_tell_values_apart() -> bool {
+    let pool = crate::refmodel::value::pool();
+    let shown: Vec<(String, String)> = pool
+        .iter()
+        .map(|v| {
+            let ev = v.to_ev();
+            (format!("{:?}", ev), format!("{:?}", evalexpr::EvalexprError::<evalexpr::DefaultNumericTypes>::ExpectedEmpty { actual: ev }))
+        })
+        .collect();
+    for i in 0..pool.len() {
+        for j in 0..pool.len() {
+            let same = pool[i].bits_eq(&pool[j]);
+            if same != (shown[i].0 == shown[j].0) || same != (shown[i].1 == shown[j].1) {
+                return false;
+            }
+        }
+    }
+    true
+}
